@@ -62,9 +62,10 @@ Definition model_parse_print (text : str) : res tb * res str :=
   (p, match p with Ok T => to_string T | Raise e => Raise e end).
 
 (* ---- round trip -------------------------------------------------------------------- *)
+(* the text given to from_string is the interpreter's rendering of T: identical entries folded,
+   marker lines where the case has them *)
 Definition rt_input_ok (T : tb) (ms : list (option str)) (text : str) : bool :=
-  if long_repeat (t_frames T) then str_eqb text (std_text T)
-  else str_eqb text (marked_text T ms) && (N.of_nat (length ms) =? N.of_nat (length (t_frames T))).
+  str_eqb text (real_text T ms) && (N.of_nat (length ms) =? N.of_nat (length (t_frames T))).
 
 Definition rt_verdict (T : tb) ms text parsed printed : verdict :=
   let '(mp, ms') := model_parse_print text in
